@@ -205,7 +205,15 @@ def check(ctx, rep: Report):
     if m2 is None:
         c2, m2 = ctx.p.lookup_method(ci, "__lookup_attr_path")
     src2 = ast.unparse(m2[0].node) if isinstance(m2, list) else ""
-    if "literal_eval" not in src2 or "getattr(obj, attr)" not in src2:
+    if isinstance(m2, list):
+        from .base import referenced_functions
+        nodes = [m2[0].node] + [g.node for g in referenced_functions(ctx.p, m2[0])]   # step function may be a module-level helper
+    else:
+        nodes = []
+    calls = [n for fnode in nodes for n in ast.walk(fnode) if isinstance(n, ast.Call)]
+    has_eval = any(ast.unparse(n.func).endswith("literal_eval") for n in calls)
+    has_getattr = any(isinstance(n.func, ast.Name) and n.func.id == "getattr" and len(n.args) == 2 for n in calls)
+    if not has_eval or not has_getattr:
         bad.append("path elements are no longer resolved by getattr / literal_eval item lookup")
     if "(AttributeError, KeyError)" not in src2 or "raise AttributeError" not in src2:
         bad.append("a missing key/attribute along the path is no longer reported as AttributeError (fallback would not apply)")
